@@ -151,6 +151,38 @@ def trace_validate(run, n, maxlen, seed, ops, pid_key, shards=16):
     run.leg("T:TraceLexer/" + ops, recorded=len(recs), mismatches=nm)
 
 
+def validate_texts(run, name, texts_path, pid_key, shards=16):
+    """Tokenizer executions on the given program texts, validated against the Lexer machine (lexical clauses of C05)."""
+    path = os.path.join(tlc.WORK, "lex-obs-%s.ndjson" % name)
+    core.run_vh(["lex-observe", texts_path, "--out", path])
+    recs = core.read_ndjson(path)
+    parts, k = core.shard(recs, shards)
+    files = []
+    for i, part in enumerate(parts):
+        p = os.path.join(tlc.WORK, "lex-obs-%s-%d.ndjson" % (name, i))
+        core.write_ndjson(p, part)
+        files.append(p)
+    cfg = trace_cfg("obs-" + name, "BuiltinOps")
+    results = core.parallel([(lambda p=p: tlc.run("trace/TraceLexer.tla", cfg, workers=1, env={"TRACE": p}, deque=True, xmx="2g", timeout=1800)) for p in files])
+    nm = 0
+    for i, res in enumerate(results):
+        run.tlc("T:TraceLexer/%s/%d" % (name, i), res)
+        if res.violation:
+            run.violation("%s/lex/trace-invariant/%s" % (pid_key, res.violation), "recorded tokenizer execution violates %s" % res.violation, {"family": "lex", "ops": "OpsBuiltin", "tlc_error": res.error_text[:3000]})
+            continue
+        prs = core.tlc_printed_records(res)
+        if not any(p.get("done") == len(parts[i]) for p in prs):
+            raise tlc.ToolError("TraceLexer did not consume every record (%s/%d)" % (name, i))
+        for p in prs:
+            if "mismatch" in p:
+                nm += 1
+                rec = parts[i][p["mismatch"]]
+                run.violation("%s/lex/trace" % pid_key, "tokenizer outcome on %r is not a behaviour of the Lexer spec (spec: %s)" % (chars_str(rec["chars"])[:200], "tokens" if p["spec"]["ok"] else "lexical error"),
+                              {"family": "lex", "ops": "OpsBuiltin", "record": {"chars": rec["chars"], "ok": p["spec"]["ok"], "dc": False, "toks": p["spec"]["toks"]}})
+    run.traces += len(recs)
+    run.leg("T:TraceLexer/" + name, recorded=len(recs), mismatches=nm)
+
+
 def replay(path, seed):
     payload = json.load(open(path))["case"]
     rec = payload["record"]
